@@ -43,7 +43,10 @@ Problems(e) ==
         THEN {[k |-> "terminal", last |-> last]} ELSE {})
   \cup (IF e.role = "swap" /\ e.handler = "rec" /\ (ref[e.flags].base # e.base \/ Masked(e.a) # Masked(ref[e.flags].evs))
         THEN {[k |-> "byteorder", paired |-> ref[e.flags].base = e.base]} ELSE {})
-  \cup (IF e.role \in {"text", "bin", "swap", "pad"} /\ last.e # "EndInput" THEN {[k |-> "validinput", last |-> last]} ELSE {})
+  \* binding sanity: an unmutated file of the real writer is read to the end (a model builder may
+  \* still refuse a model, e.g. mp::Problem rejects two suffixes of one name)
+  \cup (IF e.role \in {"text", "bin", "swap", "pad"} /\ e.handler # "prob" /\ last.e # "EndInput"
+        THEN {[k |-> "validinput", last |-> last]} ELSE {})
 
 Bad(what) == PrintT(<<"BAD", ToJson([line |-> l, what |-> what])>>)
 TRead ==
